@@ -42,7 +42,8 @@ CLAIMED["C13"] = (
     "and fake descriptors under seeded user programs: alarms on a time grid, watched pipes with scheduled arrivals "
     "(coinciding with alarm due times, order decided by a tie-break tape), idle callbacks, re-entrant API calls from "
     "callbacks, arbitrary return values, one injected exception (optionally followed by an ExitMainLoop from another callback of "
-    "the same turn) and a second run() on the same loop object. A bounded enumeration runs first: every relative order (ties "
+    "the same turn), a second run() on the same loop object, registrations replaced inside one readiness batch, a watch on descriptor 0, "
+    "a second urwid loop object on the same backend and trio's run_async entry. A bounded enumeration runs first: every relative order (ties "
     "included) of two timer expiries and one descriptor arrival x tie-break answers x exception placement (756 scenarios; select "
     "loop in every tier, all six loops in the thorough tier). A trace contract checker evaluates the alarm / "
     "watch / idle / exception clauses on every run and at every point where the loop really waits. Sampling beyond the enumerated set, not proof.",
@@ -199,7 +200,8 @@ CLAIMED["C08"] = (
     "Seeded histories on nestings (depth <= 3, <= 10 leaves) of Pile, Columns, GridFlow, Frame, Overlay and ListBox around recording "
     "leaves that log every keypress, mouse_event and render(focus) they receive: navigation keys, characters, button-1 presses, "
     "focus_position and set_focus_path writes (valid and invalid), contents insert/delete/slice assignment/clear, header/footer/body "
-    "replacement, resizes and renders. After every step: focus_position valid and contents[focus_position] is focus (IndexError for "
+    "replacement, Overlay contents assignment, edits made by a leaf from inside its own key handler, resizes and renders; leaves may have a cursor, "
+    "initial focus may come through the constructors, ListBoxes sit on three kinds of walker. After every step: focus_position valid and contents[focus_position] is focus (IndexError for "
     "empty containers and invalid assignments, which change nothing), keys only reach leaves on the focus path, unhandled keys come "
     "back unchanged, arrow keys land on selectable children, selectable() follows the contents just set, only the focus path is "
     "rendered with focus, a saved focus path can be written back; an unbound character is offered to the same leaves as in a "
